@@ -113,10 +113,7 @@ func (c *c33Conn) logf(format string, args ...any) {
 	c.trace = append(c.trace, fmt.Sprintf(format, args...))
 }
 
-type c33Abort struct{ why string }
-
-// c33Run executes one generated script. It returns "" or the reason the case was
-// abandoned as inconclusive.
+// c33Run executes one generated script.
 func c33Run(rt *rapid.T, rec *ev.Rec) {
 	iswKind := rapid.IntRange(0, 5).Draw(rt, "iswKind")
 	var cfg uint32
@@ -712,7 +709,7 @@ func c33Run(rt *rapid.T, rec *ev.Rec) {
 			}
 			if all {
 				c.logf("final checkpoint: all streams closed")
-				if checkpoint(true) && !stop {
+				if checkpoint(true) && !stop && !c.overdrawn {
 					c.classes["quiescent-window-restored"] = true
 				}
 			}
